@@ -187,6 +187,10 @@ SEMANTIC_TEMPLATES = [
     ("loopret", "uint32_t", ["uint32_t n"], "{ uint32_t acc = 1; for (i = 0; i < (n & 3); i++) { acc = acc * 3; } return acc++; }", "{ RdV = @(RsV); }"),
     ("argpostinc", "int32_t", ["int32_t x"], "{ return x + 1; }", "{ int32_t k = RsV; RdV = @(k++); ReV = k; }"),
     ("nested", "int32_t", ["int32_t x"], "{ return x * 2; }", "{ RdV = @(@(RsV) + 1); }"),
+    # a call in the discarded arm of a constant ?: must not disturb the temporaries of the calls that stay
+    ("deadarm0", "int32_t", ["int32_t x"], "{ return x * 2 + 1; }", "{ RdV = (0 ? @(RsV) : @(RtV)) + @(RuV); }"),
+    ("deadarm1", "int32_t", ["int32_t x"], "{ return x * 3; }", "{ RdV = ((1 == 2) ? @(RsV) : @(RtV)) - @(RuV); ReV = @(RsV) + (1 ? 4 : @(RtV)) + @(RuV); }"),
+    ("deadarm2", "uint32_t", ["uint32_t x"], "{ uint32_t q = x + 1; return (0 ? clz32(q) : clo32(q)) + clz32(x); }", "{ RdV = @(RsV); }"),
 ]
 
 
@@ -252,6 +256,39 @@ def definition_part(ctx):
             ctx.failure(f"C08 callee definition is not a valid function: {kind} [{tag}]", {"callee": tag, "body": body, "issue": msg})
 
 
+def callsite_part(ctx):
+    """register arguments are passed as `const HexOp *`: whatever kind of register is named at the call site, the emitted
+    call must hand over a pointer to a declared operand (judged by the C-body checker on the caller's text)"""
+    from ..il import static
+    c = boot.new_compiler("stmt")
+    name = f"c08r_ref_{os.getpid()}"
+    try:
+        with boot.quiet():
+            c.add_sub_routine(name, "int32_t", ["HexInsnPktBundle *bundle", "const HexOp *RxV", "int32_t v"], "{ RxV = RxV + v; return v; }")
+    except Exception:
+        ctx.count("by-reference callee rejected")
+        return
+    for reg in ["RxV", "RyV", "R31", "R2", "R29", "HEX_REG_ALIAS_LR", "HEX_REG_ALIAS_SP", "R1:0", "P0", "C5", "NsN", "RxV"]:
+        for caller in ("{ RdV = @(bundle, $, 4); }", "{ if (RsV) { ReV = @(bundle, $, RtV) + 1; } }"):
+            text = caller.replace("@", name).replace("$", reg)
+            ctx.evaluations += 1
+            st, il = progcheck.try_compile(c, text)
+            if st != "ok":
+                ctx.count("by-reference call rejected")
+                continue
+            ctx.nontriv(("callsite", reg, caller))
+            try:
+                body = reader.parse_body(il)
+            except reader.ReadError as e:
+                ctx.failure(f"C08 call site text unreadable [{reg}]", {"program": text.replace(name, "c08r_ref"), "error": str(e)[:200]})
+                continue
+            kinds = {}
+            for kind, msg in static.check_c_body(body, params=["bundle"]):
+                kinds.setdefault(kind, msg)
+            for kind, msg in kinds.items():
+                ctx.failure(f"C08 call site is not valid C: {kind} [{reg}]", {"program": text.replace(name, "c08r_ref"), "issue": msg, "il": il})
+
+
 def run_check(ctx):
     ctx.rule = ("Hypothesis: 1-2 generated sub-routines registered through add_sub_routine + a caller with 1..4 calls per statement "
                 "x generated states, on a long-lived and (every 8th example) a fresh compiler; the 13 bundled routines are covered "
@@ -264,6 +301,7 @@ def run_check(ctx):
     run.run_sharded(ctx, worker, [(n // 16, ns, run.sub_seed(ctx.seed, "c08", i), 8, frozenset(enable)) for i in range(16)])
     definition_part(ctx)
     semantic_templates(ctx)
+    callsite_part(ctx)
     for k in ("history:fresh compiler", "history:long-lived compiler"):
         if not ctx.classes.get(k):
             raise run.HarnessError("no example for " + k)
